@@ -705,15 +705,30 @@ func lastCase(path string) (int, string) {
 	return idx, cs
 }
 
+// tailFile returns an excerpt of a dead child's output: the head of the first panic / fatal error
+// (with GOTRACEBACK=all the tail alone is usually some unrelated goroutine) followed by the tail.
 func tailFile(path string, n int) string {
 	data, err := os.ReadFile(path)
 	if err != nil {
 		return ""
 	}
-	if len(data) > n {
-		data = data[len(data)-n:]
+	s := string(data)
+	head := ""
+	i := strings.Index(s, "\npanic: ")
+	if j := strings.Index(s, "\nfatal error: "); j >= 0 && (i < 0 || j < i) {
+		i = j
 	}
-	return string(data)
+	if i >= 0 {
+		head = s[i:]
+		if len(head) > n/2 {
+			head = head[:n/2]
+		}
+		head += "\n[...]\n"
+	}
+	if len(s) > n/2 {
+		s = s[len(s)-n/2:]
+	}
+	return head + s
 }
 
 func lastLines(s string, n int) string {
